@@ -2,6 +2,9 @@ import AdfObdd.Drv.Bdd
 import AdfObdd.Drv.Adf
 import AdfObdd.Drv.Parser
 import AdfObdd.Drv.Ng
+import AdfObdd.Drv.Iter
+import AdfObdd.Drv.Stream
+import AdfObdd.Drv.Persist
 /-! Model driver: one request per line in, the request and the model's answers out.
     `= …` is the algorithmic model's answer, `~ …` the executable specification's. Lines
     starting with `=`, `~` (the implementation's answers) and `#` are skipped. -/
@@ -11,6 +14,8 @@ structure DS where
   bdd : BddSt := {}
   adf : AdfSt := {}
   ng : NgStoreSt := {}
+  stream : StreamSt := {}
+  persist : PersistSt := {}
   feats : List String := []
 
 def step (d : DS) (l : String) : List String × DS :=
@@ -32,6 +37,15 @@ def step (d : DS) (l : String) : List String × DS :=
   | none =>
   match ngStep d.ng l ws with
   | some (out, g) => (out, { d with ng := g })
+  | none =>
+  match iterStep l ws with
+  | some out => (out, d)
+  | none =>
+  match streamStep d.stream l ws with
+  | some (out, s) => (out, { d with stream := s })
+  | none =>
+  match persistStep d.persist l ws with
+  | some (out, p) => (out, { d with persist := p })
   | none => ([l, "= unknown-request"], d)
 
 partial def loop (h : IO.FS.Stream) (out : IO.FS.Stream) (d : DS) : IO Unit := do
